@@ -373,15 +373,20 @@ def mutate(owner, fname, old, new, count=1, accessor='fget'):
         import re
         src2 = re.sub(r'\.__([A-Za-z]\w*?)(?<!__)\b', lambda m: '._%s__%s' % (owner.__name__.lstrip('_'), m.group(1)), src2)
     mod = sys.modules[target.__module__]
-    ns = {}
+    # default arguments may refer to names of the class body (e.g. `channel=channel`)
+    ns = {k: v for k, v in vars(owner).items() if not k.startswith('__')} if isinstance(owner, type) else {}
+    ns.pop(target.__name__, None)
     glb = dict(mod.__dict__)
     if isinstance(owner, type):
         glb['__class__'] = owner
     # functions using zero-arg super() need the class cell: wrap in a class-like closure
     if 'super()' in src2 and isinstance(owner, type):
-        wrapper_src = 'def __mk(__class__):\n' + textwrap.indent(src2, '    ') + '\n    return %s\n' % target.__name__
+        simple = {k: v for k, v in vars(owner).items() if not k.startswith('__') and not callable(v) and k.isidentifier()
+                  and not isinstance(v, (property, staticmethod, classmethod))}
+        pre = ''.join('    %s = __ns[%r]\n' % (k, k) for k in simple)
+        wrapper_src = 'def __mk(__class__, __ns):\n' + pre + textwrap.indent(src2, '    ') + '\n    return %s\n' % target.__name__
         exec(compile(wrapper_src, '<canary %s>' % fname, 'exec'), mod.__dict__, ns)
-        newf = ns['__mk'](owner)
+        newf = ns['__mk'](owner, simple)
     else:
         exec(compile(src2, '<canary %s>' % fname, 'exec'), mod.__dict__, ns)
         newf = ns[target.__name__]
